@@ -330,57 +330,10 @@ func Run(c *gen.Ctx) error {
 		return err
 	}
 
-	// ---- unmarshalers on dynamic values ------------------------------------------------------------
-	unm := &gen.CaseFile{Dir: c.OutDir, Prop: "C08", Kind: "unm", Requires: req, Type: "unm_case",
-		Checks: []gen.Check{{"corr", "unm_corr"}, {"mon", "unm_monitor"}}, Shard: 1500}
-	var unmDescr []any
-	texts := []string{"0", "-0", "+0", "1", "-1", "+5", "007", "-007", "12", "1.0", "1e3", "", " 1", "1 ", "abc", "0x10", "1_000", "--1", "+-1", "-", "+",
-		"2147483647", "2147483648", "-2147483648", "-2147483649", "4294967295", "4294967296",
-		"9223372036854775807", "9223372036854775808", "-9223372036854775808", "-9223372036854775809",
-		"18446744073709551615", "18446744073709551616", "99999999999999999999999", "-99999999999999999999999", "١٢", "1\x00"}
-	var inputs []goval
-	for _, t := range texts {
-		inputs = append(inputs, gv("GString", t), gv("GNumber", t))
-	}
-	for _, z := range []int64{0, 1, -1, -2, 5, math.MaxInt32, math.MaxInt32 + 1, math.MinInt32, math.MinInt32 - 1, math.MaxUint32, math.MaxUint32 + 1, math.MaxInt64, math.MinInt64, math.MinInt64 + 1, -(1 << 40)} {
-		inputs = append(inputs, gint("GInt", z), gint("GInt64", z))
-		if z >= math.MinInt32 && z <= math.MaxInt32 {
-			inputs = append(inputs, gint("GInt32", z))
-		}
-	}
-	for _, z := range []uint64{0, 1, math.MaxUint32, math.MaxUint32 + 1, 1 << 63, math.MaxUint64} {
-		inputs = append(inputs, guint("GUint64", z))
-		if z <= math.MaxUint32 {
-			inputs = append(inputs, guint("GUint32", z))
-		}
-	}
-	inputs = append(inputs,
-		goval{"(GFloat (Some 1))", "float64(1)", float64(1), false}, goval{"(GFloat None)", "float64(1.5)", 1.5, false},
-		goval{"(GFloat (Some (-3)))", "float64(-3)", float64(-3), false},
-		goval{"(GBool true)", "true", true, false}, goval{"(GBool false)", "false", false, false},
-		goval{"GNil", "nil", nil, false}, goval{"GOther", "map", map[string]any{"a": 1}, false}, goval{"GOther", "slice", []any{1}, false})
-	unmOutcomes := map[string]int{}
-	for fn := 0; fn < 8; fn++ {
-		for _, in := range inputs {
-			v, err := callUnmarshal(fn, in.val)
-			cq, js := oz(v, err)
-			sig := ""
-			if fn == 7 && in.neg {
-				sig = "uintid-negative-int-wraps"
-			}
-			unm.Add(fmt.Sprintf("{| uc_fn := %s; uc_in := %s; uc_obs := %s |}", gen.Nat(fn), in.coq, cq))
-			unmDescr = append(unmDescr, unmCase{"unm", fn, fnNames[fn] + "(" + in.js + ")", js, sig})
-			if err != nil {
-				unmOutcomes["error"]++
-			} else {
-				unmOutcomes["ok"]++
-			}
-		}
-	}
-	if err := meta.AddCaseFile(unm, unmDescr); err != nil {
+	nunm, unmOutcomes, unmSample, err := AddUnm(c, meta, "C08", req)
+	if err != nil {
 		return err
 	}
-
 	// ---- FieldSet / Array composition ----------------------------------------------------------------
 	tree := &gen.CaseFile{Dir: c.OutDir, Prop: "C08", Kind: "tree", Requires: req, Type: "tree_case",
 		Checks: []gen.Check{{"corr", "tree_corr"}, {"mon", "tree_monitor"}}, Shard: 300}
@@ -590,10 +543,66 @@ func Run(c *gen.Ctx) error {
 		return err
 	}
 
-	meta.Evaluations = str.Len() + ints.Len() + unm.Len() + tree.Len() + lib.Len()
+	meta.Evaluations = str.Len() + ints.Len() + nunm + tree.Len() + lib.Len()
 	meta.DistinctNontrivial = len(distinct)
 	meta.Rule = "direct calls: MarshalString/MarshalID on every ASCII special, boundary code points, a malformed-sequence table (overlong, surrogate, >10FFFF, truncated, stray continuation), every 3rd (quick) or every (thorough) lead byte x 11 second bytes, random byte/rune mixes; every integer marshaler at width boundaries +-2 then jsonDecode(UseNumber)+its unmarshaler; all 8 integer unmarshalers x 110 dynamic values (numeric-looking strings, typed ints at boundaries, floats, bool, nil, containers); random FieldSet/Array trees validated by encoding/json; library-formatted scalars (FloatContext incl. NaN/Inf and random bit patterns, Time, Duration, UUID, Any, Map, Omittable) validated and round-tripped in Go. distinct_nontrivial = distinct non-empty string inputs."
-	meta.Samples = []any{strDescr[40], intDescr[3], unmDescr[5], treeDescr[0], libDescr[len(libDescr)-1]}
+	meta.Samples = []any{strDescr[40], intDescr[3], unmSample, treeDescr[0], libDescr[len(libDescr)-1]}
 	meta.Distribution = map[string]any{"string_classes": strClasses, "int_cases": ints.Len(), "unmarshal_outcomes": unmOutcomes, "tree_cases": tree.Len(), "library_scalars": libKinds}
 	return meta.Write(c.OutDir)
 }
+
+// AddUnm runs all integer unmarshalers over the dynamic-value table (shared with C02).
+func AddUnm(c *gen.Ctx, meta *gen.Meta, prop string, req []string) (int, map[string]int, any, error) {
+	// ---- unmarshalers on dynamic values ------------------------------------------------------------
+	unm := &gen.CaseFile{Dir: c.OutDir, Prop: prop, Kind: "unm", Requires: req, Type: "unm_case",
+		Checks: []gen.Check{{"corr", "unm_corr"}, {"mon", "unm_monitor"}}, Shard: 1500}
+	var unmDescr []any
+	texts := []string{"0", "-0", "+0", "1", "-1", "+5", "007", "-007", "12", "1.0", "1e3", "", " 1", "1 ", "abc", "0x10", "1_000", "--1", "+-1", "-", "+",
+		"2147483647", "2147483648", "-2147483648", "-2147483649", "4294967295", "4294967296",
+		"9223372036854775807", "9223372036854775808", "-9223372036854775808", "-9223372036854775809",
+		"18446744073709551615", "18446744073709551616", "99999999999999999999999", "-99999999999999999999999", "١٢", "1\x00"}
+	var inputs []goval
+	for _, t := range texts {
+		inputs = append(inputs, gv("GString", t), gv("GNumber", t))
+	}
+	for _, z := range []int64{0, 1, -1, -2, 5, math.MaxInt32, math.MaxInt32 + 1, math.MinInt32, math.MinInt32 - 1, math.MaxUint32, math.MaxUint32 + 1, math.MaxInt64, math.MinInt64, math.MinInt64 + 1, -(1 << 40)} {
+		inputs = append(inputs, gint("GInt", z), gint("GInt64", z))
+		if z >= math.MinInt32 && z <= math.MaxInt32 {
+			inputs = append(inputs, gint("GInt32", z))
+		}
+	}
+	for _, z := range []uint64{0, 1, math.MaxUint32, math.MaxUint32 + 1, 1 << 63, math.MaxUint64} {
+		inputs = append(inputs, guint("GUint64", z))
+		if z <= math.MaxUint32 {
+			inputs = append(inputs, guint("GUint32", z))
+		}
+	}
+	inputs = append(inputs,
+		goval{"(GFloat (Some 1))", "float64(1)", float64(1), false}, goval{"(GFloat None)", "float64(1.5)", 1.5, false},
+		goval{"(GFloat (Some (-3)))", "float64(-3)", float64(-3), false},
+		goval{"(GBool true)", "true", true, false}, goval{"(GBool false)", "false", false, false},
+		goval{"GNil", "nil", nil, false}, goval{"GOther", "map", map[string]any{"a": 1}, false}, goval{"GOther", "slice", []any{1}, false})
+	unmOutcomes := map[string]int{}
+	for fn := 0; fn < 8; fn++ {
+		for _, in := range inputs {
+			v, err := callUnmarshal(fn, in.val)
+			cq, js := oz(v, err)
+			sig := ""
+			if fn == 7 && in.neg {
+				sig = "uintid-negative-int-wraps"
+			}
+			unm.Add(fmt.Sprintf("{| uc_fn := %s; uc_in := %s; uc_obs := %s |}", gen.Nat(fn), in.coq, cq))
+			unmDescr = append(unmDescr, unmCase{"unm", fn, fnNames[fn] + "(" + in.js + ")", js, sig})
+			if err != nil {
+				unmOutcomes["error"]++
+			} else {
+				unmOutcomes["ok"]++
+			}
+		}
+	}
+	if err := meta.AddCaseFile(unm, unmDescr); err != nil {
+		return 0, nil, nil, err
+	}
+	return unm.Len(), unmOutcomes, unmDescr[5], nil
+}
+
